@@ -2,7 +2,7 @@
  * DBusServer) in one process, both on the repository's test main loop.  Reads a script from stdin, prints one
  * JSON line per command with what libdbus did.  It decides nothing.
  *
- *  C20:  reg <path> <id> <fallback>   unreg <path>   ocall <path> <ids that handle, csv or ->   children <path>
+ *  C20:  reg <path> <id> <fallback>   unreg <path>   ocall <path> <ids that handle, csv or -> [<ids that unregister their own path inside the callback>]   children <path>
  *  C17:  call <tag> <timeout_ms> <notify 0/1> [serial]   reply <tag> <ret|err|dup|bogus>   cancel <tag>   block <tag>
  *        pump <ms>   peerclose   poll <tag>   steal <tag>   fetch (read into the incoming queue, no dispatch)
  */
@@ -47,12 +47,16 @@ static void pump (int ms)
 /* ------------------------------------------------------------------ C20 */
 #define MAXID 64
 static int handles[MAXID];           /* does handler <id> claim the current call */
+static int selfun[MAXID];            /* does handler <id> unregister its own path from inside the callback */
+static char *regpath[MAXID];         /* the path handler <id> was registered at */
 static int invoked[64], n_invoked;
 
 static DBusHandlerResult obj_msg (DBusConnection *c, DBusMessage *m, void *data)
 {
   int id = (int) (long) data;
   if (n_invoked < 64) invoked[n_invoked++] = id;
+  if (id < MAXID && selfun[id] && regpath[id])
+    { selfun[id] = 0; dbus_connection_unregister_object_path (c, regpath[id]); }
   if (id < MAXID && handles[id])
     {
       DBusMessage *r = dbus_message_new_method_return (m);
@@ -68,7 +72,7 @@ static const DBusObjectPathVTable vt = { NULL, obj_msg, NULL, NULL, NULL, NULL }
 
 static void put_str (const char *s) { int i; putchar ('['); for (i = 0; s && s[i]; i++) printf (i ? ",%d" : "%d", (unsigned char) s[i]); putchar (']'); }
 
-static void cmd_ocall (char *path, char *ids)
+static void cmd_ocall (char *path, char *ids, char *unids)
 {
   DBusMessage *m, *r;
   DBusPendingCall *pc = NULL;
@@ -76,6 +80,8 @@ static void cmd_ocall (char *path, char *ids)
   long t0;
   memset (handles, 0, sizeof handles);
   if (ids[0] != '-') { char *t; for (t = strtok (ids, ","); t; t = strtok (NULL, ",")) { int k = atoi (t); if (k >= 0 && k < MAXID) handles[k] = 1; } }
+  memset (selfun, 0, sizeof selfun);
+  if (unids && unids[0] != '-') { char *t; for (t = strtok (unids, ","); t; t = strtok (NULL, ",")) { int k = atoi (t); if (k >= 0 && k < MAXID) selfun[k] = 1; } }
   n_invoked = 0;
   m = dbus_message_new_method_call (NULL, path, "com.example.T", "Who");
   dbus_connection_send_with_reply (peer, m, &pc, 3000);
@@ -164,12 +170,13 @@ int main (int argc, char **argv)
           DBusError e2 = DBUS_ERROR_INIT;
           dbus_bool_t ok = atoi (a3) ? dbus_connection_try_register_fallback (under_test, a1, &vt, (void *) (long) atoi (a2), &e2)
                                      : dbus_connection_try_register_object_path (under_test, a1, &vt, (void *) (long) atoi (a2), &e2);
+          if (ok && atoi (a2) < MAXID) { free (regpath[atoi (a2)]); regpath[atoi (a2)] = strdup (a1); }
           printf ("{\"ok\":%d,\"err\":", ok); put_str (dbus_error_is_set (&e2) ? e2.name : NULL); printf ("}\n");
           dbus_error_free (&e2);
         }
       else if (!strcmp (cmd, "unreg"))
         { printf ("{\"ok\":%d}\n", dbus_connection_unregister_object_path (under_test, a1)); }
-      else if (!strcmp (cmd, "ocall")) cmd_ocall (a1, a2);
+      else if (!strcmp (cmd, "ocall")) cmd_ocall (a1, a2, a3);
       else if (!strcmp (cmd, "children"))
         {
           char **kids = NULL; int k;
